@@ -122,6 +122,10 @@ type step struct {
 	W        int     `json:"w"`
 	Keys     [][]int `json:"keys"`
 	Map      []int   `json:"map"`
+	Alias    struct {
+		V int `json:"v"` // the value whose data is byte-identical to ...
+		K int `json:"k"` // ... the serialized leaf node of this key (index into keys); 0 = no alias in this target
+	} `json:"alias"`
 }
 
 type entry struct {
@@ -144,8 +148,10 @@ type runner struct {
 	bd    merkle.Builder
 	all   []entry // every entry of the complete state (recorded while flushing the source trie)
 	given [][]byte
+	snap  trie.SnapshotForObject
 	root  []byte
 	pairs map[string][]byte // key bytes -> object data
+	alias map[int][]byte    // value -> data override (the serialized leaf node of another key)
 }
 
 func (r *runner) viol(key, format string, a ...interface{}) {
@@ -163,7 +169,12 @@ func (r *runner) keyBytes(nibs []int) []byte {
 	return out
 }
 
-func (r *runner) objData(v int) []byte { return []byte(fmt.Sprintf("object-%s-%d", r.salt, v)) }
+func (r *runner) objData(v int) []byte {
+	if d, ok := r.alias[v]; ok {
+		return d
+	}
+	return []byte(fmt.Sprintf("object-%s-%d", r.salt, v))
+}
 
 func (r *runner) present(e entry) bool {
 	bk, err := r.bd.Database().GetBucket(e.bid)
@@ -198,6 +209,34 @@ func (r *runner) setup(s *step, rnd *rand.Rand) {
 		r.nib = append(r.nib, byte(p))
 	}
 	r.src = newRecDB()
+	if s.Alias.K > 0 && r.alias == nil {
+		// first pass: build the target with a placeholder, take the serialized leaf node of the alias key (the last
+		// element of its proof), and use these bytes as the data of the alias value: the same hash is then wanted in the
+		// MerkleTrie bucket (node) and in the BytesByHash bucket (object data)
+		r.alias = map[int][]byte{}
+		r.buildSource(s)
+		proof := r.snap.GetProof(r.keyBytes(s.Keys[s.Alias.K-1]))
+		if len(proof) == 0 {
+			panic("no proof for the alias key")
+		}
+		r.alias[s.Alias.V] = append([]byte(nil), proof[len(proof)-1]...)
+		r.src = newRecDB()
+		r.all = nil
+	}
+	r.buildSource(s)
+	if s.Alias.K > 0 {
+		proof := r.snap.GetProof(r.keyBytes(s.Keys[s.Alias.K-1]))
+		if !bytes.Equal(proof[len(proof)-1], r.alias[s.Alias.V]) {
+			panic("alias leaf changed between the passes")
+		}
+	}
+	r.dest = newRecDB()
+	r.bd = merkle.NewBuilder(r.dest)
+	trie_manager.NewImmutableForObject(r.bd.Database(), r.root, objType).Resolve(r.bd)
+}
+
+// buildSource builds and flushes the target trie into r.src (writes recorded) and lists all its entries
+func (r *runner) buildSource(s *step) {
 	mt := trie_manager.NewMutableForObject(r.src, nil, objType)
 	bk, _ := r.src.GetBucket(db.BytesByHash)
 	r.pairs = map[string][]byte{}
@@ -216,16 +255,19 @@ func (r *runner) setup(s *step, rnd *rand.Rand) {
 	if err := sn.Flush(); err != nil {
 		panic(err)
 	}
+	r.snap = sn
 	r.root = sn.Hash()
 	for bid, m := range r.src.sets {
 		for k, v := range m {
 			r.all = append(r.all, entry{bid, k, v})
 		}
 	}
-	sort.Slice(r.all, func(i, j int) bool { return r.all[i].key < r.all[j].key })
-	r.dest = newRecDB()
-	r.bd = merkle.NewBuilder(r.dest)
-	trie_manager.NewImmutableForObject(r.bd.Database(), r.root, objType).Resolve(r.bd)
+	sort.Slice(r.all, func(i, j int) bool {
+		if r.all[i].key != r.all[j].key {
+			return r.all[i].key < r.all[j].key
+		}
+		return r.all[i].bid < r.all[j].bid
+	})
 }
 
 func (r *runner) lookup(key []byte) (entry, bool) {
